@@ -187,11 +187,18 @@ static int run_history(int run, int pretouch, int judge_model)
 			n_filter_ops++;
 			qb_log_filter_ctl2(0, QB_LOG_TAG_CLEAR, (enum qb_log_filter_type)o->ftype, TEXT[o->text], (uint8_t)o->hi, (uint8_t)o->lo);
 			feat_tag_clear = 1;
+			/* as for REMOVE: the library drops the first stored filter whose window lies inside the named one (or any text
+			 * for "*"), not the identical one: a narrower / other stored filter in reach makes the clear ambiguous */
+			int ambiguous = 0;
+			for (int i = 0; i < ntagf; i++)
+				if (TAGF[i].ftype == o->ftype && (TAGF[i].text == o->text || strcmp(TEXT[o->text], "*") == 0) &&
+				    TAGF[i].lo <= o->lo && TAGF[i].hi >= o->hi &&
+				    !(TAGF[i].text == o->text && TAGF[i].hi == o->hi && TAGF[i].lo == o->lo)) ambiguous = 1;
 			int rm = -1;
 			for (int i = 0; i < ntagf; i++) if (TAGF[i].ftype == o->ftype && TAGF[i].text == o->text && TAGF[i].hi == o->hi && TAGF[i].lo == o->lo) { rm = i; break; }
 			if (rm >= 0) { memmove(&TAGF[rm], &TAGF[rm + 1], sizeof(struct mfilter) * (size_t)(ntagf - rm - 1)); ntagf--; }
 			struct mfilter named = { o->ftype, o->text, o->hi, o->lo, 0 };
-			int overlap = rm < 0 && ntagf > 0;
+			int overlap = (rm < 0 && ntagf > 0) || ambiguous;
 			for (int si = 0; si < nsites && !overlap; si++) if (mf_match_site(&named, si) && model_tag(si) != 0) overlap = 1;
 			if (overlap) { feat_tag_overlap = 1; tag_model_valid = 0; overlapping[oi] = 1; }
 			break;
